@@ -182,13 +182,27 @@ def classify_and_report(ctx, jd, cases, bad, origin):
     todo = list(bad)
     subsets = [c for n in range(1, len(DEVS) + 1) for c in itertools.combinations(DEVS, n)]
     explained = {}
-    for ds in subsets:
-        if not todo:
-            break
-        acc = jd.judge_all(cases, todo, ds, "classify-" + "+".join(d.split(".")[-1][:8] for d in ds))
-        for i in acc:
-            explained[i] = ds
-        todo = [i for i in todo if i not in acc]
+    # cost only: try first the deviation the case can exhibit at all (a hint from the case); every subset is
+    # still tried for whatever stays unexplained, so the verdict does not depend on the hint
+    def hinted(d, i):
+        cfg = json.loads(cases[i][0])["cfg"]
+        if d == "eval.late_roots_ignored":
+            return bool(cfg["late"])
+        if d == "eval.same_set_append_not_executed":
+            return any("appendsame" in b for b in cfg["beh"].values())
+        return True
+    tried = set()
+    for rnd in ("hinted", "all"):
+        for ds in subsets:
+            cand = [i for i in todo if (i, ds) not in tried and (rnd == "all" or (len(ds) == 1 and hinted(ds[0], i)
+                                                                                 and not any(hinted(d, i) for d in DEVS if d != ds[0])))]
+            if not cand:
+                continue
+            acc = jd.judge_all(cases, cand, ds, "classify-" + "+".join(d.split(".")[-1][:8] for d in ds))
+            tried |= set((i, ds) for i in cand)
+            for i in acc:
+                explained[i] = ds
+            todo = [i for i in todo if i not in acc]
     perkey = {}
     for i in bad:
         cfg, obs = case_of(cases[i])
